@@ -54,7 +54,7 @@ CLAIMS = {
          "variables (plus variable-order and cache-entry validity). Decides base cases, shortcuts, the inductive step and wiring -- "
          "the induction itself, memory exhaustion and scheduling are not decided. E-TABLE.cof: DiagramRules::cofactors/cofactor of every kind (incl. the BCDD iterator) yield the children with the incoming tag applied, and cofactors_node/cofactors_edge hand them out in order. E-TABLE.ctor: constant / var / not_var constructors (ST+MT) build the terminal resp. the node at var_to_level(var) with the children in the documented order. E-EVAL: eval_edge interpreted for one iteration of its argument loop (the value given last counts, injective encodings, no other entry touched) and one call of its walk (child for the stored value; complement flag / counter / terminals), plus the initial call.",
          "abstract interpretation of HIR case tables and wrappers over finite domains", "3.3, 3.4, 3.12, 4 C02"),
- "C04": ("E-TABLE.step + E-WRAP + E-UNITS + E-CACHE: quantifier wrappers and the BDD/BCDD apply-and-quantify dispatch (dualisation) tables are "
+ "C04": ("E-TABLE.step + E-TABLE.prep + E-WRAP + E-UNITS + E-CACHE: substitute_prepare fills entry var_to_level(v) and completes unmapped levels with the variable's own function (one interpreted iteration of each loop); quantifier wrappers and the BDD/BCDD apply-and-quantify dispatch (dualisation) tables are "
          "interpreted for all 8 operators and compared with Q v.(f op g) over all operand valuations; var/level units of the "
          "quantification/substitution code; cache key pairing and hit = miss (restrict's complement tag); E-TABLE.step: the recursive step of quant, "
          "apply_quant (all 24 / 7 instances), restrict (incl. its tail-recursive cube walk with complement-edge polarity) and "
